@@ -192,13 +192,15 @@ class WeakForms(_Simu):
 
         elif self.algo == AlgoType.parabolic:
             u = results["u"]
-            v = results["v"]
+            # an iteration saved under another time scheme holds no v: it was at rest
+            v = results["v"] if "v" in results else np.zeros_like(u)
             self._Set_solutions(self.problemType, u, v)
 
         elif self.algo in AlgoType.Get_Hyperbolic_Types():
             u = results["u"]
-            v = results["v"]
-            a = results["a"]
+            # an iteration saved under another time scheme holds no v / a: it was at rest
+            v = results["v"] if "v" in results else np.zeros_like(u)
+            a = results["a"] if "a" in results else np.zeros_like(u)
             self._Set_solutions(self.problemType, u, v, a)
 
         else:
